@@ -347,7 +347,7 @@ fn expects_no_reply(m: &Message<'_>) -> bool {
     matches!(m, Message::SendData(..) | Message::DataChunksSent(..) | Message::PixelsComplete(..) | Message::Goodbye(..))
 }
 
-fn addr_of(m: &Message<'_>) -> Option<u16> {
+pub fn addr_of(m: &Message<'_>) -> Option<u16> {
     match m {
         Message::Hello(a) | Message::QueryState(a) | Message::PixelsComplete(a) | Message::Goodbye(a) => Some(a.0),
         Message::RequestOperation(a, _) | Message::ReportState(a, _) | Message::AckOperation(a, _) => Some(a.0),
